@@ -394,6 +394,8 @@ def run(ctx):
     per_instance_state(ctx, 'R14.7', ['heap'], floor=5)
     from .c15 import r15_5
     r15_5(ctx)
+    from .generic import handlers_match_lookups
+    handlers_match_lookups(ctx, 'R14.8', ['heap'], floor=3)
     r14_1(ctx)
     r14_2(ctx)
     r14_3(ctx)
